@@ -21,13 +21,14 @@ import WebpVerif.Drv.Vp8LF
 import WebpVerif.Drv.Vp8Resid
 import WebpVerif.Drv.Vp8Intra
 import WebpVerif.Drv.Vp8Header
+import WebpVerif.Drv.Vp8Frame
 import WebpVerif.Drv.Vp8Coef
 
 /-! Line protocol driver: one request per line on stdin, one reply per line on stdout.
     Unknown or malformed requests answer `bad-op` (never a default value). -/
 
 def handlers : List (List String → Option String) :=
-  [DrvC12.handle, DrvC13.handle, DrvC15.handle, DrvAnim.handle, DrvContainer.handle, DrvEncHuff.handle, DrvAlpha.handle, DrvReadImage.handle, DrvBitReader.handle, DrvLossless.handle, DrvEnc.handle, DrvVp8K.handle, DrvLLoop.handle, DrvHuf.handle, DrvVp8Ctx.handle, DrvVp8Mode.handle, DrvVp8Border.handle, DrvVp8Pred.handle, DrvVp8Coef.handle, DrvVp8Quant.handle, DrvVp8LF.handle, DrvVp8Resid.handle, DrvVp8Intra.handle, DrvVp8Header.handle]
+  [DrvC12.handle, DrvC13.handle, DrvC15.handle, DrvAnim.handle, DrvContainer.handle, DrvEncHuff.handle, DrvAlpha.handle, DrvReadImage.handle, DrvBitReader.handle, DrvLossless.handle, DrvEnc.handle, DrvVp8K.handle, DrvLLoop.handle, DrvHuf.handle, DrvVp8Ctx.handle, DrvVp8Mode.handle, DrvVp8Border.handle, DrvVp8Pred.handle, DrvVp8Coef.handle, DrvVp8Quant.handle, DrvVp8LF.handle, DrvVp8Resid.handle, DrvVp8Intra.handle, DrvVp8Header.handle, DrvVp8Frame.handle]
 
 def dispatch (args : List String) : String :=
   match handlers.findSome? (fun h => h args) with
